@@ -323,6 +323,105 @@ def multi_prefix(s, rng):
             break
 
 
+def mutating_pagination(s, rng):
+    """pages inserted between two pagination calls (the 'resumable' clause): plain insertions next to and below the pages
+    already served, and insertions that make a creation rule fire again above the page the token points at (the child
+    webentities of a path rule were deleted, their pages fell back to the parent)"""
+    if rng.random() > 0.25:
+        return
+    s.notes = getattr(s, "notes", [])
+    s.notes.append("mutating_pagination")
+    R = b"s:http|h:com|h:rc%d|" % rng.randint(0, 1)
+    conts = [b"p:europe|", b"p:asia|", b"p:oceania|"]
+    with_rule = rng.random() < 0.6
+    if with_rule:
+        s.do(2, [R, 0])
+        s.do(11, [R, 2])
+    pages = [R + c + t for c in conts for t in rng.sample([b"p:a|", b"p:b|", b"p:m|", b"p:z|", b""], rng.randint(1, 3))]
+    rng.shuffle(pages)
+    s.do(3, [pages, rng.randint(0, 1)])
+    wes = s.webentities()
+    if with_rule:
+        for w, ps in list(wes.items()):
+            if any(p.startswith(R) and p != R and R + b"h:www|" != p for p in ps) and not any(p == R for p in ps):
+                s.do(7, [w, list(ps)])                                  # the pages fall back to the site's webentity
+        wes = s.webentities()
+    target = [w for w, ps in wes.items() if R in ps]
+    if not target:
+        return
+    w, ps = target[0], list(wes[target[0]])
+    for k in (1, 2, rng.choice([3, 4])):
+        n = [0]
+
+        def between(step, k=k):
+            if rng.random() < 0.6:
+                n[0] += 1
+                c = rng.choice(conts)
+                s.do(2, [R + c + b"p:new%d%d|" % (k, n[0]), rng.randint(0, 1)])
+        s.paginate_pages(w, ps, k, rng.choice([0, 0, 1]), True, between=between)
+        # undo the webentities the rule re-created, so that the next round starts from the same situation
+        if with_rule:
+            for w2, ps2 in list(s.webentities().items()):
+                if w2 != w and any(p.startswith(R) for p in ps2):
+                    s.do(7, [w2, list(ps2)])
+
+
+def second_index(s, rng):
+    """another index opened, filled, cleared and closed in the same process while this one is in use: nothing of it may
+    leak into this one (module-level state shared between Traph objects)"""
+    if rng.random() > 0.2:
+        return
+    s.notes = getattr(s, "notes", [])
+    s.notes.append("second_index")
+    s.do(6, [[b"s:http|h:org|h:before%d|" % rng.randint(0, 9)]])
+    other = I.Impl("m" if rng.random() < 0.5 else "f")
+    try:
+        other.exec(1, [0, []])
+        for i in range(rng.randint(1, 4)):
+            other.exec(2, [b"s:http|h:com|h:elsewhere%d|p:x|" % i, 1])
+        if rng.random() < 0.5:
+            other.exec(14, [None, None])
+        if other.backend == "f" and rng.random() < 0.5:
+            other.exec(13, [0, []])
+    finally:
+        other.close()
+    s.do(6, [[b"s:http|h:org|h:after%d|" % rng.randint(0, 9)]])
+    s.do(2, [b"s:http|h:org|h:afterpage%d|p:a|" % rng.randint(0, 9), 1])
+    if s.impl.backend == "f":
+        s.do(13, [s.tr.dflt, [[p, kd] for p, kd in s.tr.rules]])
+        s.do(6, [[b"s:http|h:org|h:afterreopen%d|" % rng.randint(0, 9)]])
+
+
+def flag_churn(s, rng):
+    """every flag and register of a node whose stem spans several blocks is set and unset in turn (rule anchor, webentity
+    prefix, page, crawled, child, links); the node must stay findable with its whole stem"""
+    if rng.random() > 0.15:
+        return
+    s.notes = getattr(s, "notes", [])
+    s.notes.append("flag_churn")
+    n = rng.choice([72, 73, 80, 146, 150, 230])
+    L = b"s:http|h:com|h:churn|p:" + rng.choice([b"x", b"~"]) * n + b"|"
+    s.do(2, [L + b"p:below|", 0])
+    s.do(11, [L, rng.choice([2, 3])])
+    s.do(12, [L])
+    s.do(6, [[L]])
+    s.do(2, [L, 1])
+    w = s.do(20, [L])
+    if isinstance(w, int):
+        s.do(9, [L, w])
+        s.do(8, [L, w])
+        s.do(7, [w, [L]])
+    s.do(4, [[[L, L + b"p:below|"], [L + b"p:below|", L]]])
+    s.do(11, [L, 2])
+    s.do(12, [L])
+    for l in (L, L + b"p:below|", L + b"p:absent|"):
+        for op in (20, 21, 22, 41, 47, 33):
+            s.do(op, [l] + ([1, 1, 1] if op == 33 else []))
+    s.do(42, [])
+    s.do(35, [])
+    s.do(39, [])
+
+
 def high_ids(s, rng):
     """a webentity whose id no longer fits one byte (the caller may choose the id when attaching a prefix), with nested own
     prefixes (the www variation) and a nested foreign webentity: the per-webentity queries on exactly that one"""
@@ -411,6 +510,21 @@ def _perm_worker(job):
             for st in cfg["order"]:
                 s.do(2, [base + st, 0])
             s.do(3, [[base + st for st in reversed(cfg["order"])], 0])
+        if cfg.get("prefixes"):
+            # webentity prefixes on some of the look-alike stems, then every resolution through and next to them
+            chosen = rng.sample(cfg["order"], 2)
+            for st in chosen:
+                s.do(6, [[base + st]])
+            absent = [st[:-1] + b"-absent|" for st in cfg["order"][:2]]
+            for st in list(cfg["order"]) + absent:
+                for l in (base + st, base + st + b"p:k|", base + st + b"p:zz|p:y|"):
+                    s.do(20, [l]); s.do(21, [l]); s.do(22, [l]); s.do(41, [l])
+            w = s.do(20, [base + chosen[0]])
+            if isinstance(w, int):
+                s.do(7, [w, [base + chosen[0]]])
+                for st in cfg["order"]:
+                    s.do(20, [base + st + b"p:k|"]); s.do(21, [base + st + b"p:k|"])
+            s.do(36, [])
         focus = cfg["focus"]
         if 26 in focus:
             wes = s.webentities()
@@ -438,7 +552,7 @@ def _perm_worker(job):
         s.close()
 
 
-def perm_sweep(nstems, family=None, readd=False, tag="sibling_permutations"):
+def perm_sweep(nstems, family=None, readd=False, tag="sibling_permutations", prefixes=False):
     """all insertion orders of a small family of sibling stems (exhaustive in the thorough tier)"""
     def run(prop, tier, seed):
         import itertools
@@ -448,7 +562,8 @@ def perm_sweep(nstems, family=None, readd=False, tag="sibling_permutations"):
         if tier != "thorough":
             rng.shuffle(perms)
             perms = perms[:40]
-        jobs = [(seed + i, {"order": list(pm), "focus": K.FACET_OPS[prop], "readd": readd}) for i, pm in enumerate(perms)]
+        jobs = [(seed + i, {"order": list(pm), "focus": K.FACET_OPS[prop], "readd": readd, "prefixes": prefixes})
+                for i, pm in enumerate(perms)]
         results = pool_map(_perm_worker, jobs)
         v, k = classify(prop, results, seed)
         return v, {tag: len(perms), tag + "_exhaustive": tier == "thorough"}
@@ -456,6 +571,7 @@ def perm_sweep(nstems, family=None, readd=False, tag="sibling_permutations"):
 
 
 long_sweep = perm_sweep(5, family=SIB_LONG, readd=True, tag="long_sibling_permutations")
+long_prefix_sweep = perm_sweep(4, family=SIB_LONG, readd=False, tag="long_sibling_prefix_permutations", prefixes=True)
 
 
 def both_sweeps(*fs):
@@ -482,10 +598,10 @@ def reg(pid, theorems, focus, nq=480, nt=30000, nw=25, depth=1, mixkw=None, extr
 
 
 reg("C01", ["C01_pages_perm", "C01_count_pages", "C01_reports"], K.FACET_OPS["C01"], weird=0.3, sweep=long_sweep)
-reg("C02", ["C02_find_known", "C02_windup", "C02_stem_roundtrip"], K.FACET_OPS["C02"], sweep=both_sweeps(helper_sweep(["chunks", "lru"]), perm_sweep(5), long_sweep), weird=0.45)
+reg("C02", ["C02_find_known", "C02_windup", "C02_stem_roundtrip"], K.FACET_OPS["C02"], sweep=both_sweeps(helper_sweep(["chunks", "lru"]), perm_sweep(5), long_sweep), weird=0.45, extra=[flag_churn])
 reg("C03", ["C03_out", "C03_in", "C03_count"], K.FACET_OPS["C03"], mixkw={"add_links": 30, "batch": 20})
 reg("C04", ["C04_resolve", "C04_prefmap"], K.FACET_OPS["C04"],
-    mixkw={"create_we": 16, "delete_we": 10, "add_prefix": 12, "remove_prefix": 10, "move_prefix": 8})
+    mixkw={"create_we": 16, "delete_we": 10, "add_prefix": 12, "remove_prefix": 10, "move_prefix": 8}, sweep=long_prefix_sweep)
 reg("C05", ["C05_we_pages", "C05_partition", "C05_exactly_once"], K.FACET_OPS["C05"], mixkw={"create_we": 16, "add_prefix": 10},
     sweep=perm_sweep(5), extra=[high_ids])
 reg("C06", ["C06_create", "C06_potential", "C06_rule_install"], K.FACET_OPS["C06"], mixkw={"add_rule": 14, "remove_rule": 4},
@@ -494,10 +610,10 @@ reg("C07", ["C07_net"], K.FACET_OPS["C07"], depth=2, nq=320, mixkw={"add_links":
 reg("C08", ["C08_pagelinks"], K.FACET_OPS["C08"], mixkw={"add_links": 30, "batch": 20, "create_we": 14}, extra=[high_ids])
 reg("C09", ["C09_token_roundtrip", "C09_sorted_pages", "C09_chunks", "C09_stable_chain"], K.FACET_OPS["C09"],
     mixkw={"add_page": 50, "add_pages": 20, "create_we": 14}, sweep=both_sweeps(helper_sweep(["token"]), perm_sweep(6)),
-    extra=[deep_tree, multi_prefix])
+    extra=[deep_tree, multi_prefix, mutating_pagination])
 reg("C10", ["C10_chunks", "C10_same_links"], K.FACET_OPS["C10"], mixkw={"add_links": 35, "batch": 20, "create_we": 14},
     extra=[deep_tree, multi_prefix])
-reg("C12", ["C12_fresh"], set(), mixkw={"create_we": 16, "delete_we": 10, "add_rule": 10, "reopen": 10}, extra=[many_ids])
+reg("C12", ["C12_fresh"], set(), mixkw={"create_we": 16, "delete_we": 10, "add_rule": 10, "reopen": 10}, extra=[many_ids, second_index])
 reg("C13", ["C13_parents", "C13_children"], K.FACET_OPS["C13"], mixkw={"create_we": 18, "add_prefix": 12, "move_prefix": 8, "add_rule": 10},
     extra=[high_ids])
 reg("C19", ["C19_trie_blocks", "C19_count_links", "C19_readd_no_growth"], K.FACET_OPS["C19"], sweep=both_sweeps(helper_sweep(["chunks"]), long_sweep), weird=0.45,
@@ -627,12 +743,21 @@ def c17_cases(tier, seed):
     for sc, po, hs, rs in itertools.product(schemes, ports, hostsets, rests):
         st = [b"s:" + sc] + ([b"t:" + po] if po else []) + [b"h:" + h for h in hs] + rs
         cases.append(b"".join(x + b"|" for x in st))
+    # deep sub-domain chains (with and without a port stem), ending or not in www
+    deep = []
+    for nh in (7, 8, 9, 10, 11, 12):
+        for po in (None, b"8080"):
+            for end in ([], [b"www"], [b"www", b"www"]):
+                for sc in (b"http", b"https"):
+                    st = [b"s:" + sc] + ([b"t:" + po] if po else []) + [b"h:l%d" % i for i in range(nh)] + [b"h:" + e for e in end] + [b"p:x"]
+                    deep.append(b"".join(x + b"|" for x in st))
+    cases += deep
     n = 3000 if tier == "thorough" else 400
     for _ in range(n):
         cases.append(G.gen_lru(rng, weird=0.4))
     if tier != "thorough":
         rng.shuffle(cases)
-        cases = cases[:1400]
+        cases = cases[:1400 - len(deep)] + deep
     return cases
 
 
